@@ -370,6 +370,33 @@ def check_c07(res):
             else:
                 if out[3] == "1" and out[4] == "1" and out[5] != "1":
                     res.violations.append(Violation("equality-not-transitive", ln, str(m_), cfg))
+        # lookup / membership queries: the answer must not depend on which operand was hashed, compared or fetched before
+        import itertools as _it
+        lq, lmeta = [], []
+        for k_ in pool[: (25 if thorough else 12)]:
+            mdoc = b"{" + k_ + b" :v :other 1}"
+            sdoc = b"#{" + k_ + b" :other}"
+            pdoc = b"[" + k_ + b" :absent]"
+            opset = ["H0", "H1", "H2", "H2.0", "H0.0", "E2.0,0.0", "G2.0", "L0,2.1"]
+            for klen in range(0, 3):
+                for perm in _it.permutations(opset, klen):
+                    lq.append("script P0=%s;P1=%s;P2=%s;%sL0,2.0;K0,2.0;S1,2.0;L0,2.1;S1,2.1" % (
+                        hexs(mdoc), hexs(sdoc), hexs(pdoc), "".join(o + ";" for o in perm)))
+                    lmeta.append((k_, klen))
+        limpl, lmodel = correspond(res, cfg, "san", lq, label="lookup-histories", jobs=12)
+        lmsan = runner.run_impl(cfg, "msan", lq)
+        res.evaluations += len(lq)
+        for (k_, klen), ln, a, am in zip(lmeta, lq, limpl, lmsan):
+            res.nontrivial.add((cfg, "lookup-history", ln[-80:]))
+            res.count("lookup-history")
+            for which, obs in (("", a), ("(MemorySanitizer build) ", am)):
+                if is_crash(obs):
+                    res.violations.append(Violation("lookup-crash-or-uninitialised-read", ln[:3000], which + obs[:200], cfg))
+                    continue
+                out = obs.split(";")
+                if out[:3] == ["ok", "ok", "ok"] and out[3 + klen:] != ["idx0", "1", "1", "none", "0"]:
+                    res.violations.append(Violation("lookup-answer-depends-on-history", ln[:3000],
+                                                    "%skey %r after %d preceding calls: %s" % (which, k_[:40], klen, ";".join(out[3 + klen:])), cfg))
         # deeply nested values: two reads of the same document must be equal with equal hashes at every depth
         dl, dm = [], []
         for (o, c_) in ((b"[", b"]"), (b"(", b")"), (b"{:k ", b"}"), (b"#{", b"}"), (b"#t ", b"")):
@@ -560,7 +587,7 @@ def check_c09(res):
             sdoc = b"#{" + b" ".join(keys) + b"}"
             kdoc = b"[" + b" ".join(keys) + b" :absent [99999] \"zz\" 1e99]"
             idxs = range(size) if size <= 40 else rnd.sample(range(size), 25)
-            for pre in ("", "H0;", "H0.0;" if size else ""):
+            for pre in ("", "H0;", "H0.0;" if size else "", "H2;", "H2;H0;" if size else "", "H1;"):
                 ops = []
                 for i in idxs:
                     ops.append("L0,2.%d" % i)
@@ -574,6 +601,12 @@ def check_c09(res):
                     res.count("probe:absent")
                 scripts.append("script P0=%s;P1=%s;P2=%s;%s%s" % (hexs(mdoc), hexs(sdoc), hexs(kdoc), pre, ";".join(ops)))
                 meta.append(("general", size, list(idxs), len(pre.split(";")) - 1, pname))
+            # each probe hashed (cached hash set) right before it is used, the collection's keys never hashed
+            ops = []
+            for i in list(idxs) + list(range(size, size + 4)):
+                ops += ["H2.%d" % i, "L0,2.%d" % i, "K0,2.%d" % i, "S1,2.%d" % i]
+            scripts.append("script P0=%s;P1=%s;P2=%s;%s" % (hexs(mdoc), hexs(sdoc), hexs(kdoc), ";".join(ops)))
+            meta.append(("hashed-probe", size, list(idxs), 0, pname))
             # helpers
             hops, hexp = [], []
             for i in idxs:
@@ -592,6 +625,20 @@ def check_c09(res):
                 scripts.append("script P0=%s;%s" % (hexs(mdoc), ";".join(hops)))
                 meta.append(("helpers", size, hexp, 0, pname))
         impl, model = correspond(res, cfg, "san", scripts, label="lookup-scripts", jobs=12)
+        # the same scripts preceded by reads that leave non-zero bytes in freed heap blocks, under MemorySanitizer:
+        # a result that depends on uninitialised storage is reported there
+        small = [sc for sc in scripts if len(sc) < 20000]
+        pollute = docline(b'["' + b"\xff" * 12000 + b'" "' + b"z\\n" * 3000 + b'"]')
+        mlines = []
+        for sc in small:
+            mlines += [pollute, sc]
+        mout = runner.run_impl(cfg, "msan", mlines)
+        res.evaluations += len(mlines)
+        res.count("msan-lookup-scripts", len(small))
+        for ln, a, ref_ in zip(small, mout[1::2], [impl[scripts.index(sc)] for sc in small]):
+            if is_crash(a) or a != ref_:
+                res.violations.append(Violation("lookup-depends-on-uninitialised-memory-or-history", ln[:3000],
+                                                "after unrelated reads / under MemorySanitizer: %s | fresh: %s" % (a[:160], ref_[:160]), cfg))
         for m_, ln, a in zip(meta, scripts, impl):
             res.nontrivial.add((cfg, m_[0], m_[1], m_[3], m_[4]))
             res.count("map:%s:%d" % (m_[4], m_[1]))
@@ -599,9 +646,11 @@ def check_c09(res):
                 res.violations.append(Violation("lookup-crash", ln[:3000], a, cfg))
                 continue
             out = a.split(";")
-            if m_[0] == "general":
+            if m_[0] in ("general", "hashed-probe"):
                 _, size, idxs, npre, _pn = m_
                 body = out[3 + npre:]
+                if m_[0] == "hashed-probe":
+                    body = [x for j, x in enumerate(body) if j % 4 != 0]       # drop the hash outputs
                 pos = 0
                 for i in idxs:
                     l, k, s = body[pos:pos + 3]
@@ -942,6 +991,27 @@ def check_c10(res):
                 res.violations.append(Violation("value-xor-error-broken:" + head, ln, "%r -> %s" % (d, a[:100]), cfg))
         sample = rnd.sample(lines, 3000 if thorough else 1200)
         correspond(res, cfg, "san", sample, label="xor-sample")
+        # (c) the same invariant on every sequence of up to 5 (thorough: 6) TOKENS: discards, tags, markers, openers, closers
+        tokens = [b"#_", b"#t ", b"1 ", b"]", b")", b"}", b"[", b"(", b"{", b"#{", b":a ", b"\"s\" "] + ([b"^:m ", b"#:n"] if cfg[0] == "1" else [])
+        tmax = 6 if thorough else 5
+        tdocs = []
+        for L in range(1, tmax + 1):
+            if L == tmax and not thorough and cfg not in ("00", "11"):
+                continue
+            for tup in itertools.product(tokens, repeat=L):
+                tdocs.append(b"".join(tup))
+        tlines = [docline(d) for d in tdocs]
+        timpl = []
+        with ThreadPoolExecutor(16) as ex:
+            for part in ex.map(lambda p: runner.run_impl(cfg, "prod", p), runner.shard(tlines, 16)):
+                timpl.extend(part)
+        res.evaluations += len(tdocs)
+        res.count("xor-token-sequences", len(tdocs))
+        for d, ln, a in zip(tdocs, tlines, timpl):
+            head = a.split(" ")[0]
+            if head in ("NEITHER", "BOTH") or is_crash(a) or (head == "ERR" and " nomsg " in a):
+                res.violations.append(Violation("value-xor-error-broken:" + head, ln, "%r -> %s" % (d, a[:100]), cfg))
+        correspond(res, cfg, "san", rnd.sample(tlines, min(len(tlines), 3000 if thorough else 1000)), label="xor-token-sample")
         g = Gen(rnd.randrange(1 << 30), clj=cfg[0] == "1", exp=cfg[1] == "1")
         lines = [docline(g.corrupt(g.document(3))) for _ in range(1500 if thorough else 500)]
         impl, model = correspond(res, cfg, "san", lines, label="corruptions")
@@ -1049,6 +1119,14 @@ def check_c01(res):
             res.count("accessors")
             if is_crash(a):
                 res.violations.append(Violation("sanitizer-report-in-accessor:" + refs.crash_class(a), ln, a, cfg))
+        # reads of uninitialised storage (undefined behaviour as soon as they steer a branch): MemorySanitizer build
+        mlines = lines[: (1500 if thorough else 500)] + scripts
+        mout = runner.run_impl(cfg, "msan", mlines)
+        res.evaluations += len(mlines)
+        res.count("msan", len(mlines))
+        for ln, a in zip(mlines, mout):
+            if is_crash(a):
+                res.violations.append(Violation("uninitialised-read:" + refs.crash_class(a), ln, a, cfg))
         res.sample({"cfg": cfg, "doc": lines[3][:100]})
 
 
@@ -2026,6 +2104,13 @@ def check_c17(res):
         for ln, a, b in zip(lines, base, ro):
             if a != b:
                 res.violations.append(Violation("result-differs-or-faults-on-read-only-input", ln, "%s | read-only: %s" % (a[:160], b[:160]), cfg))
+        # (c') MemorySanitizer: any dependence of control flow on uninitialised storage (arena bytes, padding) is reported
+        ms = runner.run_impl(cfg, "msan", lines)
+        res.evaluations += len(lines)
+        res.count("msan", len(lines))
+        for ln, a, b in zip(lines, base, ms):
+            if a != b:
+                res.violations.append(Violation("result-depends-on-uninitialised-memory", ln, "%s | MemorySanitizer build: %s" % (a[:160], b[:160]), cfg))
         # (d) threads under the race detector
         tl = []
         small = [d for d in docs if len(d) < 4000]
@@ -2137,6 +2222,20 @@ def check_c02(res):
                 else:
                     continue
                 break
+        # single tokens far longer than the stack: stack use must not scale with token length
+        big = 3 << 20 if thorough else (1 << 20) + (1 << 18)
+        toks = {"float": b"1." + b"0" * big, "float-exp": b"1" * big + b"e5", "integer": b"7" * big, "symbol": b"s" * big,
+                "keyword": b":" + b"k" * big, "string": b'"' + b"x" * big + b'"', "string-escapes": b'"' + b"\\n" * (big // 2) + b'"',
+                "comment": b";" + b"c" * big + b"\n1", "blanks": b" " * big + b"1", "tag": b"#" + b"t" * big + b" 1",
+                "bigdec": b"1." + b"3" * big + b"M"}
+        for name, tk in toks.items():
+            a = runner.run_impl(cfg, "prod", [docline(tk)], extra_args=["--stack1m"], timeout=300)[0]
+            res.evaluations += 1
+            res.count("megabyte-token")
+            res.nontrivial.add((cfg, "bigtoken", name))
+            if is_crash(a) or a.startswith("MISSING"):
+                res.violations.append(Violation("stack-or-time-exhausted-by-long-token", "doc <%s token of %d bytes>" % (name, len(tk)),
+                                                "%s token of %d bytes on a 1 MiB stack: %s" % (name, len(tk), a[:120]), cfg))
         # (b) time growth
         import time as _t
         shapes = {
